@@ -76,7 +76,10 @@ def targeted_programs(dev):
     h["ops"] = [{"op": "enter"}, some[1], some[6],
                 {"op": "save", "ext": "none", "fname": "assay.gwl.d/part1.txt"}, {"op": "save", "ext": "none", "fname": "archive.gwl/worklist"},
                 {"op": "save", "ext": "none", "fname": "x.gwl.bak/notes.md", "pathkind": "path"},
-                {"op": "save", "fname": "plain.dir/inside.gwl"}, {"op": "save", "fname": "a.gwl.d/b.gwl", "pathkind": "path"}, {"op": "exit"}]
+                {"op": "save", "fname": "plain.dir/inside.gwl"}, {"op": "save", "fname": "a.gwl.d/b.gwl", "pathkind": "path"},
+                # other letter cases of the extension: whether they are taken is not pinned; if they are, the file is the one that was named
+                {"op": "save", "ext": "case", "fname": "PLATE1.GWL", "pre": "longer"}, {"op": "save", "ext": "case", "fname": "Run_02.Gwl", "pathkind": "path"},
+                some[3], {"op": "save", "ext": "case", "fname": "PLATE1.GWL"}, {"op": "save", "ext": "case", "fname": "sub.dir/x.gWl", "pre": "shorter"}, {"op": "exit"}]
     progs.append(h)
     # rack labels with Latin-1 letters: the file must address the same racks as the record list
     h = _hdr("files/latin1-racks", dev)
